@@ -544,6 +544,18 @@ func nativeReplay(o RunOpts, L *Loaded, h *HarnessCfg, tapePath string, v *Viola
 	if strings.Contains(out, want) {
 		return true, ""
 	}
+	// the native run on the solver's inputs violates ANOTHER assertion of the same harness (typical when the values
+	// of uninterpreted hashes differ natively): still a counterexample of the property on the real code
+	if v.Kind != "panic" {
+		if i := strings.Index(out, "REPLAY-VIOLATION label="); i >= 0 {
+			rest := out[i+len("REPLAY-VIOLATION label="):]
+			if j := strings.IndexAny(rest, " \n|"); j > 0 {
+				rest = rest[:j]
+			}
+			v.Msg += " (the native replay of these inputs violates assertion " + rest + ")"
+			return true, ""
+		}
+	}
 	// a panic in a goroutine started by the code under test cannot be recovered by the replay driver: it kills
 	// the test process, which prints the Go runtime's crash report instead of REPLAY-PANIC
 	if v.Kind == "panic" && strings.Contains(out, "\npanic: ") && strings.Contains(out, "\ngoroutine ") && !strings.Contains(out, "test timed out") {
